@@ -108,6 +108,22 @@ static rc::Gen<SCase> genS() {
         c.axis = *genAxis();
         c.lmin_f = *uniform(0.05, 0.3);
         c.seed = (uint64_t)*irange(1, 1 << 30);
+        if (*irange(0, 7) == 0) {
+            // the opposite corner: a mother that is coarse relative to l_min - a regular octahedron or icosahedron cut along a body diagonal,
+            // through the midpoints of its edges, so that the daughters need no collapse at all (or the division fails cleanly)
+            mg::ShapeSpec r;
+            r.family = *rc::gen::element(1, 3);
+            r.param = 0;
+            mg::Placement q;
+            q.scale = *rc::gen::element(1.0, 1e-6, 3.7);
+            for (double& v : q.t) v = *uniform(-3, 3) * q.scale;
+            c.mesh = mg::place(mg::build_shape(r), q);
+            c.shape = "coarse regular " + r.describe();
+            c.axis = AxisSpec();
+            c.axis.cls = 0;
+            c.axis.v[0] = *rc::gen::element(1.0, -1.0), c.axis.v[1] = *rc::gen::element(1.0, -1.0), c.axis.v[2] = *rc::gen::element(1.0, -1.0);
+            c.lmin_f = *uniform(0.05, 0.3);
+        }
         return c;
     });
 }
@@ -175,6 +191,12 @@ static std::string check_daughters(cell_ptr d1, cell_ptr d2, const std::type_inf
     }
     // remeshing tolerance: relative to the resolution l_max / diameter (diameter ~ bounding diagonal / sqrt(3))
     const ld tau = std::min<ld>(0.6, std::max<ld>(0.05, 1.2 * (ld)lmax / (size / sqrtl(3.0L))));
+    if (1.2 * (ld)lmax / (size / sqrtl(3.0L)) > 1.0) {
+        // l_max of the order of the mother's diameter (a 20-face mother remeshed with edges as long as itself): the resolution does not
+        // constrain the volume any more; the other clauses still apply
+        ctx.count("volume_clause_not_applicable_at_this_resolution");
+        return "";
+    }
     ctx.count("volume_defect_permille_" + std::to_string((int)std::min<ld>(999, fabsl(vsum - Vm) / Vm * 1000)));
     if (fabsl(vsum - Vm) > tau * Vm) {
         os << "daughter volumes add up to " << (double)vsum << ", the mother's volume was " << (double)Vm << " (allowed relative defect " << (double)tau << ")";
